@@ -4478,6 +4478,14 @@ _dbus_connection_peer_filter_unlocked_no_update (DBusConnection *connection,
       return DBUS_HANDLER_RESULT_NOT_YET_HANDLED;
     }
 
+  if (dbus_message_get_type (message) != DBUS_MESSAGE_TYPE_METHOD_CALL)
+    {
+      /* Only method calls are answered. A signal (or a reply) that
+       * names this interface is an ordinary message: replying to it
+       * with an error, and swallowing it, would be wrong. */
+      return DBUS_HANDLER_RESULT_NOT_YET_HANDLED;
+    }
+
   /* Preallocate a linked-list link, so that if we need to dispose of a
    * message, we can attach it to the expired list */
   expire_link = _dbus_list_alloc_link (NULL);
